@@ -1,8 +1,527 @@
-//! Structured payload generator (STUB: filled in together with the corresponding BDS models).
+//! Structured MB payloads for the Comm-B registers BDS 1,0 / 1,7 / 1,8 / 1,9 / 2,0 / 2,1 / 3,0.
+//!
+//! Mostly *valid* encodings (every validity rule of the register's reader satisfied) with each
+//! field swept over boundary values while the other fields are random or zero, every status bit
+//! on and off, plus near-valid payloads that break exactly one rule.  Quick: a few hundred;
+//! thorough: tens of thousands (full code sweeps: all 64 character codes at every position, all
+//! 8192 AC13 codes, all ranges/bearings).
 use crate::common::*;
+use crate::decgen::put_bits;
+
+/// what a 1-bit capability flag must be for the register to be accepted
+#[derive(Clone, Copy, PartialEq)]
+enum Rule {
+    Any,
+    One,
+    Zero,
+}
+use Rule::*;
+
+/// 56 random bits, or zeros
+fn base(rng: &mut Rng, random: bool) -> Vec<u8> {
+    if random {
+        rng.bytes(7)
+    } else {
+        vec![0u8; 7]
+    }
+}
+
+fn boundary(rng: &mut Rng, bits: usize) -> u64 {
+    let max = (1u64 << bits) - 1;
+    match rng.below(6) {
+        0 => 0,
+        1 => 1,
+        2 => max,
+        3 => max - 1,
+        4 => 1 << rng.below(bits as u64),
+        _ => rng.below(max + 1),
+    }
+}
+
+// ---------------------------------------------------------------------------------------------
+// BDS 1,0
+// ---------------------------------------------------------------------------------------------
+
+/// bit offsets of the eleven BDS 1,0 flags; (offset, width) of subnet, uplink, downlink, acas_rtca, dte
+const B10_FLAGS: [usize; 11] = [8, 14, 15, 23, 24, 32, 33, 34, 35, 36, 37];
+const B10_NUM: [(usize, usize); 5] = [(16, 7), (25, 3), (28, 4), (38, 2), (40, 16)];
+
+fn b10_valid(p: &mut [u8]) {
+    put_bits(p, 0, 8, 0x10);
+    put_bits(p, 9, 5, 0);
+}
+
+fn bds10(rng: &mut Rng, thorough: bool, out: &mut Vec<Vec<u8>>) {
+    let k = if thorough { 40 } else { 1 };
+    let flags = &B10_FLAGS;
+    // every flag alone on a zero background / alone off on an all-ones background
+    for &f in flags {
+        let mut p = base(rng, false);
+        b10_valid(&mut p);
+        put_bits(&mut p, f, 1, 1);
+        out.push(p);
+        let mut p = vec![0xffu8; 7];
+        b10_valid(&mut p);
+        put_bits(&mut p, f, 1, 0);
+        out.push(p);
+    }
+    // numeric fields: boundary values, other bits random
+    for &(off, w) in &B10_NUM {
+        let max = (1u64 << w) - 1;
+        let mut vals = vec![0, 1, max, max - 1, max / 2, max / 2 + 1];
+        if w == 16 {
+            vals.extend([0x00ff, 0x0100, 0xff00, 0x1234, 0x8000, 0x0080]);
+        }
+        if w == 7 {
+            vals.extend([5, 6]);
+        }
+        if thorough && w <= 7 {
+            vals = (0..=max).collect();
+        }
+        for v in vals {
+            for r in [false, true] {
+                let mut p = base(rng, r);
+                b10_valid(&mut p);
+                put_bits(&mut p, off, w, v);
+                out.push(p);
+            }
+        }
+    }
+    // random valid
+    for _ in 0..(10 * k) {
+        let mut p = base(rng, true);
+        b10_valid(&mut p);
+        out.push(p);
+    }
+    // near-valid: wrong BDS code, one reserved bit set
+    for code in [0x00u64, 0x11, 0x90, 0x30, 0x18] {
+        let mut p = base(rng, true);
+        b10_valid(&mut p);
+        put_bits(&mut p, 0, 8, code);
+        out.push(p);
+    }
+    for i in 0..5 {
+        for r in [false, true] {
+            let mut p = base(rng, r);
+            b10_valid(&mut p);
+            put_bits(&mut p, 9 + i, 1, 1);
+            out.push(p);
+        }
+    }
+    for _ in 0..(2 * k) {
+        let mut p = base(rng, true);
+        b10_valid(&mut p);
+        put_bits(&mut p, 9, 5, 1 + rng.below(31));
+        out.push(p);
+    }
+}
+
+// ---------------------------------------------------------------------------------------------
+// flag registers BDS 1,7 / 1,8 / 1,9
+// ---------------------------------------------------------------------------------------------
+
+fn apply_rules(p: &mut [u8], rules: &[Rule]) {
+    for (i, r) in rules.iter().enumerate() {
+        match r {
+            One => put_bits(p, i, 1, 1),
+            Zero => put_bits(p, i, 1, 0),
+            Any => {}
+        }
+    }
+}
+
+/// valid payloads of a flag register: free bits one-hot / all / none / random / sparse;
+/// near-valid: each constrained bit flipped alone.  `tail_zero` = first bit of the part that
+/// must be all zeros (BDS 1,7), 56 otherwise.
+fn flag_register(rng: &mut Rng, thorough: bool, rules: &[Rule], tail_zero: usize, out: &mut Vec<Vec<u8>>) {
+    let k = if thorough { 40 } else { 1 };
+    let fix = |p: &mut Vec<u8>| {
+        apply_rules(p, rules);
+        if tail_zero < 56 {
+            put_bits(p, tail_zero, 56 - tail_zero, 0);
+        }
+    };
+    let free: Vec<usize> = (0..tail_zero).filter(|&i| i >= rules.len() || rules[i] == Any).collect();
+    // none, all
+    let mut p = vec![0u8; 7];
+    fix(&mut p);
+    out.push(p);
+    let mut p = vec![0xffu8; 7];
+    fix(&mut p);
+    out.push(p);
+    // one-hot and one-cold over the free bits
+    for &i in &free {
+        let mut p = vec![0u8; 7];
+        put_bits(&mut p, i, 1, 1);
+        fix(&mut p);
+        out.push(p);
+        if thorough {
+            let mut p = vec![0xffu8; 7];
+            put_bits(&mut p, i, 1, 0);
+            fix(&mut p);
+            out.push(p);
+        }
+    }
+    // random / sparse valid
+    for j in 0..(10 * k) {
+        let mut p = base(rng, j % 2 == 0);
+        if j % 2 == 1 {
+            for _ in 0..(1 + rng.below(4)) {
+                let i = *rng.pick(&free);
+                put_bits(&mut p, i, 1, 1);
+            }
+        }
+        fix(&mut p);
+        out.push(p);
+    }
+    // near-valid: one rule broken at a time
+    for (i, r) in rules.iter().enumerate() {
+        if *r == Any {
+            continue;
+        }
+        for random in [false, true] {
+            if random && !thorough && *r == Zero && i % 4 != 0 {
+                continue;
+            }
+            let mut p = base(rng, random);
+            fix(&mut p);
+            put_bits(&mut p, i, 1, if *r == One { 0 } else { 1 });
+            out.push(p);
+        }
+    }
+    for i in tail_zero..56 {
+        for random in [false, true] {
+            if random && !thorough && i % 4 != 0 {
+                continue;
+            }
+            let mut p = base(rng, random);
+            fix(&mut p);
+            put_bits(&mut p, i, 1, 1);
+            out.push(p);
+        }
+    }
+}
+
+fn rules17() -> Vec<Rule> {
+    let mut r = vec![Any; 24];
+    r[6] = One; // bds20
+    r
+}
+
+fn rules18() -> Vec<Rule> {
+    // declaration order bds38 .. bds01: index i holds BDS code 0x38 - i
+    let mut r = vec![Zero; 56];
+    for code in [0x30u8, 0x21, 0x1f, 0x1e, 0x1d, 0x1c, 0x1b, 0x1a, 0x10, 0x0f, 0x0b, 0x0a, 0x09, 0x08, 0x07, 0x06, 0x05] {
+        r[(0x38 - code) as usize] = Any;
+    }
+    for code in [0x20u8, 0x19, 0x18, 0x17] {
+        r[(0x38 - code) as usize] = One;
+    }
+    r
+}
+
+fn rules19() -> Vec<Rule> {
+    // declaration order bds70 .. bds39: index i holds BDS code 0x70 - i
+    let mut r = vec![Zero; 56];
+    for code in [0x65u8, 0x62, 0x61, 0x60, 0x5f, 0x53, 0x52, 0x51, 0x50, 0x45, 0x44, 0x40] {
+        r[(0x70 - code) as usize] = Any;
+    }
+    r
+}
+
+// ---------------------------------------------------------------------------------------------
+// character registers BDS 2,0 / 2,1
+// ---------------------------------------------------------------------------------------------
+
+const ALNUM: &[u8] = b"ABCDEFGHIJKLMNOPQRSTUVWXYZ0123456789";
+/// boundary 6-bit codes: around the letter block, the space, the digit block
+const CODES_Q: [u64; 14] = [0, 1, 2, 26, 27, 31, 32, 33, 47, 48, 49, 57, 58, 63];
+
+fn code_of(c: u8) -> u64 {
+    match c {
+        b'A'..=b'Z' => (c - b'A' + 1) as u64,
+        b'0'..=b'9' => (c - b'0' + 48) as u64,
+        b' ' => 32,
+        _ => 0,
+    }
+}
+
+/// random 6-bit code of an alphanumeric character
+fn alnum(rng: &mut Rng) -> u64 {
+    code_of(*rng.pick(ALNUM))
+}
+
+fn bds20(rng: &mut Rng, thorough: bool, out: &mut Vec<Vec<u8>>) {
+    let k = if thorough { 10 } else { 1 };
+    let codes: Vec<u64> = if thorough { (0..64).collect() } else { CODES_Q.to_vec() };
+    // every position x code, the other characters a plausible call sign (letters/digits + trailing spaces)
+    for pos in 0..8 {
+        for &c in &codes {
+            for _ in 0..k {
+                let mut p = vec![0u8; 7];
+                put_bits(&mut p, 0, 8, 0x20);
+                let len = 2 + rng.below(7);
+                for i in 0..8u64 {
+                    put_bits(&mut p, 8 + 6 * i as usize, 6, if i < len { alnum(rng) } else { 32 });
+                }
+                put_bits(&mut p, 8 + 6 * pos, 6, c);
+                out.push(p);
+            }
+        }
+    }
+    // all spaces, all zeros, all 63, random codes
+    for c in [32u64, 0, 63, 1] {
+        let mut p = vec![0u8; 7];
+        put_bits(&mut p, 0, 8, 0x20);
+        for i in 0..8 {
+            put_bits(&mut p, 8 + 6 * i, 6, c);
+        }
+        out.push(p);
+    }
+    for _ in 0..(20 * k) {
+        let mut p = base(rng, true);
+        put_bits(&mut p, 0, 8, 0x20);
+        out.push(p);
+    }
+    // near-valid: wrong code byte
+    for code in [0x00u64, 0x21, 0x10, 0xa0, 0x28] {
+        let mut p = base(rng, true);
+        put_bits(&mut p, 0, 8, code);
+        for i in 0..8 {
+            put_bits(&mut p, 8 + 6 * i, 6, alnum(rng));
+        }
+        out.push(p);
+    }
+}
+
+/// BDS 2,1 payload from the two status bits and the nine 6-bit codes
+fn b21(ac_status: u64, reg: &[u64; 7], al_status: u64, airline: &[u64; 2]) -> Vec<u8> {
+    let mut p = vec![0u8; 7];
+    put_bits(&mut p, 0, 1, ac_status);
+    for (i, &c) in reg.iter().enumerate() {
+        put_bits(&mut p, 1 + 6 * i, 6, c);
+    }
+    put_bits(&mut p, 43, 1, al_status);
+    for (i, &c) in airline.iter().enumerate() {
+        put_bits(&mut p, 44 + 6 * i, 6, c);
+    }
+    p
+}
+
+/// a registration accepted by `^[A-Z0-9]+[\s#]?[A-Z0-9]+$`: 2..7 characters, optionally one
+/// unassigned code ('#') strictly inside, dropped code 32 sprinkled anywhere in the padding
+fn valid_reg(rng: &mut Rng) -> [u64; 7] {
+    let len = 2 + rng.below(6) as usize; // 2..=7
+    let mut s: Vec<u64> = (0..len).map(|_| alnum(rng)).collect();
+    if len >= 3 && rng.chance(1, 3) {
+        let i = 1 + rng.below(len as u64 - 2) as usize;
+        s[i] = *rng.pick(&[0u64, 27, 31, 33, 47, 58, 63]);
+    }
+    // pad with 32 at random places (they are dropped before the test)
+    while s.len() < 7 {
+        let i = if rng.chance(2, 3) { s.len() } else { rng.below(s.len() as u64 + 1) as usize };
+        s.insert(i, 32);
+    }
+    [s[0], s[1], s[2], s[3], s[4], s[5], s[6]]
+}
+
+fn bds21(rng: &mut Rng, thorough: bool, out: &mut Vec<Vec<u8>>) {
+    let k = if thorough { 10 } else { 1 };
+    let codes: Vec<u64> = if thorough { (0..64).collect() } else { CODES_Q.to_vec() };
+    // random valid registrations
+    for _ in 0..(30 * k * k) {
+        let r = valid_reg(rng);
+        out.push(b21(1, &r, 0, &[if rng.chance(1, 4) { 32 } else { 0 }, if rng.chance(1, 4) { 32 } else { 0 }]));
+    }
+    // every position x code inside an otherwise valid 7-character registration
+    for pos in 0..7 {
+        for &c in &codes {
+            for _ in 0..k {
+                let mut r = [0u64; 7];
+                for x in r.iter_mut() {
+                    *x = alnum(rng);
+                }
+                r[pos] = c;
+                out.push(b21(1, &r, 0, &[0, 0]));
+            }
+        }
+    }
+    // lengths 0, 1, 2 (after dropping code 32)
+    out.push(b21(1, &[32; 7], 0, &[0, 0]));
+    for pos in 0..7 {
+        let mut r = [32u64; 7];
+        r[pos] = alnum(rng);
+        out.push(b21(1, &r, 0, &[0, 0]));
+        let mut r2 = r;
+        r2[(pos + 1 + rng.below(6) as usize) % 7] = alnum(rng);
+        out.push(b21(1, &r2, 0, &[0, 0]));
+    }
+    // '#' first, last, twice, adjacent
+    for _ in 0..(3 * k) {
+        let a = alnum(rng);
+        let b = alnum(rng);
+        let c = alnum(rng);
+        out.push(b21(1, &[0, a, b, c, 32, 32, 32], 0, &[0, 0]));
+        out.push(b21(1, &[a, b, c, 0, 32, 32, 32], 0, &[0, 0]));
+        out.push(b21(1, &[a, 0, b, 0, c, 32, 32], 0, &[0, 0]));
+        out.push(b21(1, &[a, 0, 0, b, c, 32, 32], 0, &[0, 0]));
+        out.push(b21(1, &[a, 0, b, c, 32, 32, 32], 0, &[0, 0]));
+        out.push(b21(1, &[a, 63, b, 32, 32, 32, 32], 0, &[0, 0]));
+        out.push(b21(1, &[0; 7], 0, &[0, 0]));
+    }
+    // status 0: zeros / dropped codes accepted, anything else refused
+    out.push(b21(0, &[0; 7], 0, &[0, 32]));
+    out.push(b21(0, &[32; 7], 0, &[32, 32]));
+    out.push(b21(0, &[32, 0, 32, 0, 0, 32, 0], 0, &[32, 0]));
+    for pos in 0..7 {
+        for &c in &[1u64, 48, 63, 31] {
+            let mut r = [0u64; 7];
+            r[pos] = c;
+            out.push(b21(0, &r, 0, &[0, 0]));
+        }
+    }
+    for _ in 0..(3 * k) {
+        out.push(b21(0, &valid_reg(rng), 0, &[0, 0]));
+    }
+    // airline part: status bit set (always refused), non-null codes
+    for _ in 0..(2 * k) {
+        let r = valid_reg(rng);
+        out.push(b21(1, &r, 1, &[0, 0]));
+        out.push(b21(1, &r, 1, &[alnum(rng), alnum(rng)]));
+        out.push(b21(0, &[0; 7], 1, &[0, 0]));
+    }
+    for pos in 0..2 {
+        for &c in &codes {
+            let mut a = [0u64; 2];
+            a[pos] = c;
+            out.push(b21(1, &valid_reg(rng), 0, &a));
+            if thorough {
+                out.push(b21(0, &[0; 7], 0, &a));
+            }
+        }
+    }
+    // fully random payloads (mostly refused)
+    for _ in 0..(5 * k) {
+        out.push(base(rng, true));
+    }
+}
+
+// ---------------------------------------------------------------------------------------------
+// BDS 3,0
+// ---------------------------------------------------------------------------------------------
+
+fn b30_base(rng: &mut Rng, random: bool) -> Vec<u8> {
+    let mut p = base(rng, random);
+    put_bits(&mut p, 0, 8, 0x30);
+    p
+}
+
+fn bds30(rng: &mut Rng, thorough: bool, out: &mut Vec<Vec<u8>>) {
+    let k = if thorough { 40 } else { 1 };
+    // the single-bit fields (6 ARA, 4 RAC, RAT, MTE), with RA issued and not
+    let singles: [usize; 12] = [9, 10, 11, 12, 13, 14, 22, 23, 24, 25, 26, 27];
+    for issued in [0u64, 1] {
+        for tti in 0..4u64 {
+            let mut p = b30_base(rng, false);
+            put_bits(&mut p, 8, 1, issued);
+            put_bits(&mut p, 28, 2, tti);
+            out.push(p);
+            let mut p = vec![0xffu8; 7];
+            put_bits(&mut p, 0, 8, 0x30);
+            put_bits(&mut p, 8, 1, issued);
+            put_bits(&mut p, 28, 2, tti);
+            out.push(p);
+        }
+        for &b in &singles {
+            let mut p = b30_base(rng, false);
+            put_bits(&mut p, 8, 1, issued);
+            put_bits(&mut p, b, 1, 1);
+            put_bits(&mut p, 28, 2, rng.below(4));
+            out.push(p);
+            let mut p = b30_base(rng, true);
+            put_bits(&mut p, 8, 1, issued);
+            put_bits(&mut p, b, 1, 0);
+            out.push(p);
+        }
+        // reserved ACAS III bits: free
+        for v in [1u64, 0x40, 0x7f] {
+            let mut p = b30_base(rng, false);
+            put_bits(&mut p, 8, 1, issued);
+            put_bits(&mut p, 15, 7, v);
+            out.push(p);
+        }
+    }
+    // threat identity: address + the two trailing bits (not checked)
+    for _ in 0..(6 * k) {
+        let mut p = b30_base(rng, true);
+        put_bits(&mut p, 28, 2, 1);
+        put_bits(&mut p, 30, 24, boundary(rng, 24));
+        put_bits(&mut p, 54, 2, rng.below(4));
+        out.push(p);
+    }
+    // threat orientation: altitude x range x bearing
+    let alts: Vec<u64> = if thorough {
+        (0..8192).collect()
+    } else {
+        vec![
+            0, 0x0010, 0x0011, 0x0030, 0x0031, 0x003a, 0x1fbf, 0x1f9f, 0x0040, 0x1fff, 0x1fc0, 0x0041, 0x0002, 0x0004, 0x0a28, 0x1000,
+            0x0800, 0x0038,
+        ]
+    };
+    for &a in &alts {
+        for _ in 0..(if thorough { 2 } else { 1 }) {
+            let mut p = b30_base(rng, true);
+            put_bits(&mut p, 28, 2, 2);
+            put_bits(&mut p, 30, 13, a);
+            out.push(p);
+        }
+    }
+    let ranges: Vec<u64> = if thorough { (0..128).collect() } else { vec![0, 1, 2, 3, 11, 64, 100, 126, 127] };
+    for &r in &ranges {
+        let mut p = b30_base(rng, true);
+        put_bits(&mut p, 28, 2, 2);
+        put_bits(&mut p, 43, 7, r);
+        out.push(p);
+    }
+    let bearings: Vec<u64> = if thorough { (0..64).collect() } else { vec![0, 1, 2, 30, 59, 60, 61, 62, 63] };
+    for &b in &bearings {
+        for _ in 0..(if thorough { 4 } else { 1 }) {
+            let mut p = b30_base(rng, true);
+            put_bits(&mut p, 28, 2, 2);
+            put_bits(&mut p, 50, 6, b);
+            out.push(p);
+        }
+    }
+    // no identity / not assigned: the 26 unused bits are free
+    for tti in [0u64, 3] {
+        for _ in 0..(3 * k) {
+            let mut p = b30_base(rng, true);
+            put_bits(&mut p, 28, 2, tti);
+            out.push(p);
+        }
+    }
+    // random valid
+    for _ in 0..(10 * k) {
+        out.push(b30_base(rng, true));
+    }
+    // near-valid: wrong code byte
+    for code in [0x00u64, 0x31, 0x20, 0xb0, 0x38, 0x10] {
+        let mut p = b30_base(rng, true);
+        put_bits(&mut p, 0, 8, code);
+        out.push(p);
+    }
+}
 
 /// 7-byte ME/MB payloads: mostly valid encodings of the registers this file covers, boundary
 /// values of every field, each status bit on/off, plus a few near-valid ones.
-pub fn payloads(_rng: &mut Rng, _thorough: bool) -> Vec<Vec<u8>> {
-    vec![]
+pub fn payloads(rng: &mut Rng, thorough: bool) -> Vec<Vec<u8>> {
+    let mut out = vec![];
+    bds10(rng, thorough, &mut out);
+    flag_register(rng, thorough, &rules17(), 29, &mut out);
+    flag_register(rng, thorough, &rules18(), 56, &mut out);
+    flag_register(rng, thorough, &rules19(), 56, &mut out);
+    bds20(rng, thorough, &mut out);
+    bds21(rng, thorough, &mut out);
+    bds30(rng, thorough, &mut out);
+    out
 }
